@@ -586,7 +586,7 @@ func (m *Miner) Build(parent *Node, o BlockOpts) (b *Block, ok bool) {
 			forged = &Tx{Ver: 1, In: []TxIn{{Prev: prev, Seq: 0xffffffff}}, Out: []TxOut{{pval - 1000, m.W.Script(KP2PKH, m.R.Intn(m.W.NKeys()))}}}
 			if prev.Hash == t.ID() && lock[1] == 4 && lock[65] != 1 && m.R.Chance(0.5) {
 				forged = nil // only create the output this time: the block stays valid, a later block will try to spend it
-				violDone = false
+				violDone = true
 			} else if lock[1] == 4 && lock[65] == 1 && lock[2] == 0 && lock[33] == 0 {
 				forged.In[0].ScriptSig = push(ForgeOffCurveSig(LegacyDigest(forged, 0, lock, SigAll), SigAll))
 			} else {
@@ -594,8 +594,8 @@ func (m *Miner) Build(parent *Node, o BlockOpts) (b *Block, ok bool) {
 			}
 			if forged != nil {
 				forged.Valid = []bool{false}
-				violDone = true
 			}
+			violDone = true
 		}
 		if n == violAt && o.Viol == "value-wrap" {
 			for len(t.Out) < 2 {
